@@ -109,6 +109,7 @@ def run(ctx):
                                ngen=10, steps=140 if quick else 80, variants=variants,
                                scripted=ps.history_matrix_jobs(variants) + ps.fault_jobs(variants) + ps.expired_jobs(variants)
                                + ps.nested_jobs(variants)[::2 if quick else 1])
+    ps.concurrent_phase(ctx, PID)
     if not quick:
         ps.selftest(ctx, PID, trace, lambda r: r.get("a") == "recv" and r.get("r") == "some",
                     lambda r: r.update(id=r["id"] + 1), "received_id_changed")
